@@ -830,7 +830,7 @@ def selftest():
                     env["GOMAXPROCS"] = str(g)
                     if race:
                         env["GORACE"] = "halt_on_error=1 exitcode=66"
-                                if i >= 3:
+                    if i >= 3:
                         env["GOGC"] = "1"  # collect all the time: nothing may hinge on addresses or on when memory is reused
                     jobs.append(([binary, "-test.run", "TestSim", "-test.timeout", "0", "-sim.selftest", str(n), "-sim.seed", "77",
                                   "-sim.hashlog", os.path.join(tmp, "h_%s_%d_%d" % (eng, race, i))], env, os.path.join(tmp, "st_%s_%d_%d" % (eng, race, i))))
